@@ -1456,6 +1456,22 @@ _dbus_connection_unref_unlocked (DBusConnection *connection)
     _dbus_connection_last_unref (connection);
 }
 
+#ifdef DBUS_VERIF_SIM
+/* Verification hook (off by default): lets an in-process simulation harness
+ * start a connection's 32-bit message serial counter near its wrap-around. */
+void _dbus_verif_connection_set_next_serial (DBusConnection *connection,
+                                             dbus_uint32_t   serial);
+
+void
+_dbus_verif_connection_set_next_serial (DBusConnection *connection,
+                                        dbus_uint32_t   serial)
+{
+  CONNECTION_LOCK (connection);
+  connection->client_serial = serial;
+  CONNECTION_UNLOCK (connection);
+}
+#endif
+
 /**
  * Allocate and return the next non-zero serial number for outgoing messages.
  *
